@@ -426,6 +426,7 @@ func catalogue() []*cat {
 		mk[SweepRow]("SweepRow"),
 	}
 	theCatalogue = append(theCatalogue, catalogue2()...)
+	theCatalogue = append(theCatalogue, catalogueAny()...)
 	return theCatalogue
 }
 
